@@ -470,6 +470,66 @@ class Walker:
             seen.add(id(e))
             tgt = ast.copy_location(ast.Subscript(value=ast.Name(id=v, ctx=ast.Load()), slice=ast.Constant(value=0), ctx=ast.Store()), e.node)
             extra.append(Event("store", e.node, {"base": hv, "index": as_poly(vis["k"]), "value": e.data["args"][0], "target": tgt, "synthetic": True}, e.state, e.pathid))
+    # two nested loops filling one list: `L = []; for a in A: for b in B: L.append(f(a, b))` stores f at index k_outer * len(B) + k_inner
+    def count_of(vis_):
+      it_ = vis_["iter"]
+      a_ = it_.as_atom() if isinstance(it_, Poly) else None
+      if a_ is None:
+        return None
+      if a_.kind == "range":
+        r_ = [as_poly(x_) for x_ in a_.args]
+        if len(r_) == 1:
+          return r_[0]
+        if len(r_) == 2 or (len(r_) == 3 and r_[2].as_int() == 1):
+          return r_[1] - r_[0]
+        return None
+      if a_.kind in ("enumerate", "reversed", "sorted", "list") and a_.args:
+        return mk("len", as_poly(a_.args[0]))
+      if a_.kind in ("param", "sym", "map", "attr", "slice"):
+        return mk("len", it_)
+      return None
+    for lo_ in self.loop_info.values():
+      if not isinstance(lo_["node"], ast.For):
+        continue
+      for vo in lo_.get("visits", []):
+        opaths = [bp for bp in lo_.get("body_paths", []) if bp[4] is vo]
+        if not opaths or any(bp[0] not in ("fall", "continue") for bp in opaths):
+          continue
+        for v in lo_["modified"]:
+          pre = vo.get("pre_env", {}).get(v)
+          hv = vo["head"].env.get(v)
+          if not (isinstance(pre, Seq) and pre.kind == "list" and not pre.items) or not isinstance(hv, Poly):
+            continue
+          # no direct append in the outer body; exactly one inner loop (directly nested) appends once per pass
+          direct = any(self.events[i_].kind == "mutate" and self.events[i_].data["method"] in MUTATORS and isinstance(self.events[i_].data.get("target"), ast.Name)
+                       and self.events[i_].data["target"].id == v for bp in opaths for i_ in bp[2].trace[bp[3]:])
+          if direct:
+            continue
+          inners = [li_ for li_ in self.loop_info.values() if li_ is not lo_ and isinstance(li_["node"], ast.For) and any(x_ is li_["node"] for x_ in ast.walk(lo_["node"]))
+                    and v in li_["modified"]]
+          if len(inners) != 1:
+            continue
+          li_ = inners[0]
+          for vi in li_.get("visits", []):
+            if not (isinstance(vi.get("pre_env", {}).get(v), Poly) and vi["pre_env"][v] == hv):
+              continue
+            ipaths = [bp for bp in li_.get("body_paths", []) if bp[4] is vi]
+            if not ipaths or any(bp[0] not in ("fall", "continue") for bp in ipaths):
+              continue
+            per_path = [[self.events[i_] for i_ in bp[2].trace[bp[3]:] if self.events[i_].kind == "mutate" and self.events[i_].data["method"] == "append"
+                         and isinstance(self.events[i_].data.get("target"), ast.Name) and self.events[i_].data["target"].id == v] for bp in ipaths]
+            n_in = count_of(vi)
+            if n_in is None or any(len(a_) != 1 for a_ in per_path) or as_poly(vo["k"]).as_atom() in n_in.all_atoms():
+              continue
+            seen = set()
+            for apps in per_path:
+              e = apps[0]
+              if id(e) in seen:
+                continue
+              seen.add(id(e))
+              tgt = ast.copy_location(ast.Subscript(value=ast.Name(id=v, ctx=ast.Load()), slice=ast.Constant(value=0), ctx=ast.Store()), e.node)
+              extra.append(Event("store", e.node, {"base": hv, "index": as_poly(vo["k"]) * n_in + as_poly(vi["k"]), "value": e.data["args"][0], "target": tgt, "synthetic": True},
+                                 e.state, e.pathid))
     self.events.extend(extra)
 
   # ---------------------------------------------------------------- expressions
@@ -1231,7 +1291,17 @@ class Walker:
     c1 = sub_c(ctree)
     if any(isinstance(x, Poly) and any(y in carried for y in x.all_atoms()) for x in _cond_polys(c1)):
       return None
-    conds = [c1 if pol else ("not", c1)]
+    NEG = {"Eq": "NotEq", "NotEq": "Eq", "Lt": "GtE", "GtE": "Lt", "Gt": "LtE", "LtE": "Gt", "Is": "IsNot", "IsNot": "Is", "In": "NotIn", "NotIn": "In"}
+    if pol:
+      conds = [c1]
+    elif isinstance(c1, tuple) and c1 and c1[0] == "cmp" and c1[1] in NEG:
+      conds = [("cmp", NEG[c1[1]], c1[2], c1[3])]          # `if a != b: continue` keeps exactly the elements with a == b
+    elif isinstance(c1, tuple) and c1 and c1[0] == "truthy":
+      conds = [("falsy", c1[1])]
+    elif isinstance(c1, tuple) and c1 and c1[0] == "falsy":
+      conds = [("truthy", c1[1])]
+    else:
+      conds = [("not", c1)]
     FILTER_CONDS[repr(conds)] = conds
     src = self.iter_source(itv)
     src_f = mk("filter", as_poly(src[0]) if src else as_poly(itv), P("cond", repr(conds)))
@@ -1407,7 +1477,8 @@ class Walker:
       for v in mod:
         pre_v = st.env.get(v)
         empty_set = isinstance(pre_v, Poly) and pre_v.as_atom() is not None and pre_v.as_atom().kind == "set" and not pre_v.as_atom().args
-        if not (empty_set or (isinstance(pre_v, Seq) and pre_v.kind == "list" and all(not isinstance(x_, tuple) for x_ in pre_v.items))) or v not in henv or isinstance(henv[v], (Seq, Const, tuple)):
+        listval = isinstance(pre_v, Poly) and _listlike(pre_v)          # a list already known as a value (comprehension, repetition, concatenation)
+        if not (empty_set or listval or (isinstance(pre_v, Seq) and pre_v.kind == "list" and all(not isinstance(x_, tuple) for x_ in pre_v.items))) or v not in henv or isinstance(henv[v], (Seq, Const, tuple)):
           continue
         hv = as_poly(henv[v])
         elts = []
@@ -1432,12 +1503,23 @@ class Walker:
           hv2 = henv.get(v2)
           if isinstance(hv2, Poly) and hv2.as_atom() is not None and hv2.as_atom().kind == "sym" and hv2.as_atom() != ka:
             carried.add(hv2.as_atom())
+        if isinstance(elt, Poly) and any(x.kind == "sym" and x != ka and x not in carried for x in elt.all_atoms()):
+          # the element may be the exit value of an inner accumulation loop: read it as the sum it computes (it depends on the pass through its range)
+          try:
+            elt = resolve_sums(self, elt)
+          except Exception:
+            pass
         if ka is None or any(x in carried for x in elt.all_atoms()):
           continue
         bv = Atom("bv", "b%d" % next(self.fresh))
         tail = Poly.atom(Atom("map", rebuild(elt.deep_subst(ka, Poly.atom(bv))), bv, as_poly(itv)))
         # a literal list that is extended by the loop: [r0, r1] + [f(t) for t in it]; `s = set(); for t in it: s.add(f(t))` is {f(t) for t in it}
-        after.env[v] = mk("set", tail) if empty_set else (tail if not pre_v.items else mk("concat", as_poly(pre_v), tail))
+        if empty_set:
+          after.env[v] = mk("set", tail)
+        elif listval:
+          after.env[v] = mk("concat", pre_v, tail)
+        else:
+          after.env[v] = tail if not pre_v.items else mk("concat", as_poly(pre_v), tail)
     for v, t in thyps.items():
       if v not in hyps and isinstance(after.env.get(v), Poly) and after.env[v].as_atom() is not None:
         after.facts.append(("truthy" if t else "falsy", after.env[v]))
